@@ -436,6 +436,7 @@ func (g *declGen) group(ns *nameSets, nsPrefix string, depth int, allowEmpty boo
 			}
 		}
 	}
+	gr.OptsLast = pct(t, "optsLast", 30)
 	if depth < cfg.NestGroups && pct(t, "nested", 35) {
 		nn := rapid.IntRange(1, 2).Draw(t, "nnested")
 		for i := 0; i < nn; i++ {
@@ -537,6 +538,9 @@ func (g *declGen) cmd(c *Cmd, depth int) {
 	}
 	if depth < cfg.Depth && pct(t, "hasCmds", cmdPct) {
 		n := rapid.IntRange(1, cfg.Fanout).Draw(t, "ncmds")
+		if pct(t, "manyCmds", 4) {
+			n = rapid.IntRange(9, 13).Draw(t, "manyCmdsN")
+		}
 		used := map[string]bool{}
 		for i := 0; i < n; i++ {
 			g.nCmd++
@@ -907,6 +911,9 @@ func (g *argvGen) unknownLong() string {
 		if i := strings.LastIndex(n, g.d.NsD()); i > 0 && g.d.NsD() != "" {
 			cands = append(cands, n[i+len(g.d.NsD()):], strings.Replace(n, g.d.NsD(), "-", 1))
 		}
+		if i := strings.Index(n, g.d.NsD()); i > 0 && g.d.NsD() != "" {
+			cands = append(cands, n[i+len(g.d.NsD()):]) // without the outermost namespace
+		}
 	}
 	// options declared elsewhere in the tree (siblings, children)
 	for _, o := range g.d.AllOpts() {
@@ -1097,6 +1104,11 @@ func genArgv(t *rapid.T, d *Decl, cfg *ArgvCfg) []string {
 			for i := rapid.IntRange(9, 40).Draw(t, "manyN"); i > 0; i-- {
 				g.emitOpt(o)
 			}
+		}
+	}
+	if cfg.WPlain > 0 && pct(t, "manyTrailingWords", 4) {
+		for i := rapid.IntRange(9, 24).Draw(t, "manyWordsN"); i > 0; i-- {
+			g.emitPlain()
 		}
 	}
 	if pct(t, "trailing", 30) {
